@@ -30,6 +30,14 @@ FaceGraph ==
     /\ Cardinality({e \in SUBSET (0..11) : Cardinality(e) = 2 /\ \A a \in e : \A b \in e : a # b => Adjacent(a, b)}) = 30
     /\ Cardinality({t \in SUBSET (0..11) : Cardinality(t) = 3 /\ \A a \in t : \A b \in t : a # b => Adjacent(a, b)}) = 20
 
+\* the quintant chosen from the polar angle is the quintant whose vertices build the face triangle
+SectorsConsistent ==
+  phase = "start" =>
+    \A g \in {2 * k + 1 : k \in -200..200} :
+      /\ QuintantOfAngle(g) = QuintantOfTriangle(FaceTriangleIndex(g))
+      /\ FaceTriangleIndex(g) \in 0..9 /\ QuintantOfAngle(g) \in 0..4
+      /\ FaceTriangleIndex(g + TurnH) = FaceTriangleIndex(g)
+
 Dump == phase = "face" => PrintT("REPLAY " \o ToJson([kind |-> "face", face |-> f, first |-> FirstQ(f), layout |-> Layout(f),
                                    clockwise |-> IsClockwise(f), antipode |-> Antipode(f),
                                    adjacent |-> [g \in 0..11 |-> Adjacent(f, g)]]))
